@@ -36,7 +36,7 @@ def dyn_cases(ctx, n):
         out.append((prog, bursty(ctx.rng, th, lo=60, hi=500, flush=ctx.rng.choice([0.0, 0.05, 0.3]), means=(1, 3, 10, 30, 60))))
     return out
 
-def run_dyn(ctx, name, defs, n):
+def run_dyn(ctx, name, defs, n, driver=None):
     impl = G.build(ctx, name, ['-DDYNREG'] + defs)
     if not impl: return
     cases = dyn_cases(ctx, n)
@@ -55,6 +55,16 @@ def run_dyn(ctx, name, defs, n):
     ctx.cov['evaluations'] += len(cases); ctx.cov['distinct_nontrivial'] += len(distinct)
     ctx.cov['oracle_violations'] = ctx.cov.get('oracle_violations', 0) + nor
     ctx.cov['input_distribution'][name] = {'cases': len(cases), 'programs': DPROGS}
+    if driver:
+        # refinement: the trace - registrations and unregistrations included - must be a run of the dynamic-registry grace-period model (Gp/GpMbDynExec.v)
+        from props import C01
+        def project_for(prog):
+            init = [str(i) for i, tp in enumerate(prog.split('/')) if not tp.startswith('-')]
+            return lambda raw, nth: G.project_mb(raw, nth, dyn_initial=init)
+        by_prog = {}
+        for (p, sch), (rc, raw) in zip(cases, rs): by_prog.setdefault(p, []).append(((p, sch), raw))
+        for p, lst in by_prog.items():
+            C01.refine(ctx, driver, [c for c, _ in lst], [r for _, r in lst], 'GpMbDynExec (mb model with dynamic registry) accepts the trace of src/urcu.c (%s)' % name, project_for(p))
 
 BPPROGS = ['(r)/(q)(r)(q)(r)/SSS', '(r)(q)/(r)/(q)(r)(q)/SS', '(q)/(r)(r)/S/S(q)', '(r)/(q)/(r)/(q)/SSS']      # bp: a thread registers on first use and leaves when its program ends
 def run_bp(ctx, n):
@@ -117,7 +127,8 @@ def run(ctx):
     prove(ctx)
     n = 400 if ctx.quick() else 5000
     run_dyn(ctx, 'scen_gp_dyn_memb', [], n)
-    run_dyn(ctx, 'scen_gp_dyn_mb', ['-DFLAVOR_MB'], n // 2)
+    dyndriver = build_model_driver(ctx, 'gpmbdyn', 'ExtractGpMbDyn.v', 'gpmbdyn_driver.ml')
+    run_dyn(ctx, 'scen_gp_dyn_mb', ['-DFLAVOR_MB'], n // 2, dyndriver)
     run_bp(ctx, n // 2)
     run_qsbr(ctx, n // 2)
     from props import C15seq
